@@ -538,7 +538,9 @@ func cmdCheck(args []string) {
 			case "unwind":
 				confirmed = no.Kind == "timeout"
 			case "poison":
-				confirmed = no.Kind == "panic" && (strings.Contains(no.Detail, "fault") || strings.Contains(no.Detail, "invalid memory address"))
+				// the stale bytes sit in an inaccessible guard page natively: the read faults (or, on the same
+				// input, Go's own bounds check fires first) - either way the native run panics
+				confirmed = no.Kind == "panic"
 			}
 			if !confirmed {
 				rep.Problems = append(rep.Problems, fmt.Sprintf("UNCONFIRMED %s (%s at %s): native outcome %s %s", v.Kind, v.What, v.Pos, no.Kind, no.Detail))
